@@ -64,8 +64,9 @@ func (g *GoFakeS3) routeBase(w http.ResponseWriter, r *http.Request) {
 		err = g.listBuckets(w, r)
 
 	} else {
-		http.NotFound(w, r)
-		return
+		// Only listing the buckets is possible without a bucket; answer anything
+		// else with an S3 error document rather than net/http's plain-text 404.
+		err = ErrMethodNotAllowed
 	}
 
 	if err != nil {
